@@ -171,6 +171,7 @@ def _judge(ctx, traces, verdicts, rec, rnd, ex):
 
         def drop_draw(t):
             t["events"][0]["draws"] = t["events"][0]["draws"][:-1]
+            t["events"][0]["drawn"] -= 16
             return t
         gs2 = dict(gs, events=gs["events"][:1] + [e for e in gs["events"][1:] if not e["lag"]][:12] +
                    [e for e in gs["events"][1:] if e["exc"] == "ValueError"][:1])
